@@ -158,7 +158,8 @@ def harnesses(ctx):
     hs += [
         Harness("c08_orig_b2c", "input_text__buffer__mod", ["InputBuffer::fill_orig_b2c", "InputBuffer::to_orig_char_idx", "InputBuffer::to_orig_byte_idx"],
                 "original texts over 5 concrete width patterns (1-4 byte characters); continuation bytes and the queried byte offset symbolic",
-                kernel="C08-c original byte -> code-point table: entry at a boundary = number of code points before it, usize::MAX elsewhere",
+                kernel="C08-c original byte -> code-point table: entry at a boundary = number of code points before it, usize::MAX elsewhere - "
+                       "whatever the tables of the normalised text hold (same or different byte length, other character layout) and whatever the table held before",
                 timeout_s=1200, mem_gb=16),
     ] + [
         Harness("c08_build_tables_p%d" % i, "input_text__buffer__mod", ["InputBuffer::build (char/byte tables)", "InputBuffer::start_build", "InputBuffer::to_curr_byte_idx",
